@@ -415,4 +415,13 @@ example : bindHeadersNoBr (exBadRows.headD []) = false ∧ qOK (rowQ "age".toLis
 
 example : qOK (rowQ "age".toList (exBindRows.getD 1 [])) = true := qOK_rowQ _ _ (by decide +kernel)
 
+/-- `convert_bind_nodes_noBr` / `convert_c01_binds` on the worked example of `Proofs/Convert` (five binds, one with a
+    `bind::relevant` column) -/
+example : ∃ doc f lists rows drows o ditems, Trace exWb doc f lists rows drows o ditems ∧
+    noBrKids (bindNodesL (elsOf f.name (dWithMeta f.name rows ditems)) [(f.name, .group)]
+      (dWithMeta f.name rows ditems)) = true := by
+  obtain ⟨doc, hd, -⟩ := convert_ok exWb false exText ex_convert
+  obtain ⟨f, lists, rows, drows, o, ditems, T⟩ := convertDoc_trace exWb doc hd
+  exact ⟨doc, f, lists, rows, drows, o, ditems, T, convert_bind_nodes_noBr T⟩
+
 end Pyxv.ConvertP
